@@ -6,6 +6,7 @@
 package rig
 
 import (
+	"errors"
 	"fmt"
 	"sort"
 	"strconv"
@@ -79,7 +80,7 @@ type Rig struct {
 	RefuseSend   func(msgType string, m *quickfix.Message) bool // ToApp first time returns an error
 	FromAppErr   func(m *quickfix.Message) quickfix.MessageRejectError
 	FromAdminErr func(m *quickfix.Message) quickfix.MessageRejectError
-	InCallback   func(kind string) // hook for schedule perturbation (C02)
+	InCallback   func(kind string)         // hook for schedule perturbation (C02)
 	EditAdmin    func(m *quickfix.Message) // the application edits an outgoing administrative message in ToAdmin
 	RecordSaves  bool                      // trace every completed outbound save ("store.Save") / number increment ("store.IncrSender")
 
@@ -275,13 +276,26 @@ func (a app) ToApp(m *quickfix.Message, _ quickfix.SessionID) error {
 		a.r.InCallback("ToApp")
 	}
 	if e.PossDup && a.r.RefuseResend != nil && a.r.RefuseResend(e.Seq, e.MsgType) {
-		return quickfix.ErrDoNotSend
+		return refusal(e.Seq)
 	}
 	if !e.PossDup && a.r.RefuseSend != nil && a.r.RefuseSend(e.MsgType, m) {
-		return quickfix.ErrDoNotSend
+		return refusal(e.Seq)
 	}
 	return nil
 }
+
+// refusal is what a declining ToApp returns: any non-nil error means "do not send"; the sentinel
+// ErrDoNotSend is only one of them (which one is used depends on the number, deterministically).
+func refusal(seq int) error {
+	switch seq % 3 {
+	case 0:
+		return errors.New("application: message is stale")
+	case 1:
+		return fmt.Errorf("declined: %w", quickfix.ErrDoNotSend)
+	}
+	return quickfix.ErrDoNotSend
+}
+
 func (a app) FromAdmin(m *quickfix.Message, _ quickfix.SessionID) quickfix.MessageRejectError {
 	a.r.add(a.cb("FromAdmin", m))
 	if a.r.FromAdminErr != nil {
